@@ -9,6 +9,7 @@ import (
 	"os"
 	"path/filepath"
 	"strings"
+	"sync"
 	"time"
 
 	"verifharness/evidence"
@@ -343,6 +344,7 @@ type Replay struct {
 
 // WriteReplay writes /verif/replays/<property>-<leg>.json and returns its path.
 func WriteReplay(r Replay) string {
+	markWritten(r.Property, r.Leg)
 	dir := filepath.Join(evidence.Root(), "replays")
 	_ = os.MkdirAll(dir, 0o755)
 	p := filepath.Join(dir, fmt.Sprintf("%s-%s.json", r.Property, r.Leg))
@@ -410,9 +412,30 @@ func msDur(ms int64) time.Duration { return time.Duration(ms) * time.Millisecond
 
 // WriteRaw writes an arbitrary replay document to /verif/replays/<property>-<leg>.json.
 func WriteRaw(property, leg string, b []byte) string {
+	markWritten(property, leg)
 	dir := filepath.Join(evidence.Root(), "replays")
 	_ = os.MkdirAll(dir, 0o755)
 	p := filepath.Join(dir, fmt.Sprintf("%s-%s.json", property, leg))
 	_ = os.WriteFile(p, b, 0o644)
 	return p
+}
+
+// written remembers which replay files this process has written: a leg that fails without having written one
+// did not find a violation (it hit a harness error), and must not be reported as one.
+var (
+	writtenMu sync.Mutex
+	written   = map[string]bool{}
+)
+
+func markWritten(property, leg string) {
+	writtenMu.Lock()
+	written[property+"-"+leg] = true
+	writtenMu.Unlock()
+}
+
+// ReplayWritten tells whether this process wrote the replay file of the leg.
+func ReplayWritten(property, leg string) bool {
+	writtenMu.Lock()
+	defer writtenMu.Unlock()
+	return written[property+"-"+leg]
 }
